@@ -104,6 +104,7 @@ C12_GRAPHS = ("tree:4:7:1:ratio", "tree:4:2:0:shift", "treelike:4:5:1:ratio", "g
               "subst:JC69:constant_mu:missing")
 _GRAPH_CACHE = {}
 THOROUGH_ONLY = {"c12/tree:4:2:0:shift"}
+DEEP_MAX = 40
 
 
 def all_graphs():
@@ -486,9 +487,11 @@ def run(run):
     for g in graphs:
         n_ops = len(alphabet(g, all_graphs()[g], False))
         # full alphabet to depth 2 (thorough 3), reduced alphabet one level deeper
-        step = 6
+        # (thorough: depth 3 for alphabets of at most DEEP_MAX operations, the larger graphs stay at 2)
+        deep = (not quick) and n_ops <= DEEP_MAX
+        step = 2 if deep else 6
         for lo in range(0, n_ops, step):
-            items.append({"graph": g, "depth": 2 if quick else 3, "reduced": False, "ops_slice": [lo, lo + step]})
+            items.append({"graph": g, "depth": 3 if deep else 2, "reduced": False, "ops_slice": [lo, lo + step]})
         n_red = len(alphabet(g, all_graphs()[g], True))
         for lo in range(0, n_red, 3):
             items.append({"graph": g, "depth": 3 if quick else 4, "reduced": True, "ops_slice": [lo, lo + 3]})
@@ -530,7 +533,7 @@ def run(run):
         "traces_validated_against_impl": trans,
         "samples": samples,
         "exhaustive": True,
-        "bound": f"all histories over the full alphabet to depth {2 if quick else 3} and over the reduced "
+        "bound": f"all histories over the full alphabet to depth {2 if quick else f'3 (graphs with at most {DEEP_MAX} operations; 2 for the larger ones)'} and over the reduced "
                  f"alphabet to depth {3 if quick else 4}, each followed by a probe of every observable; states "
                  "merged on the canonical key (search started from every first operation independently)",
         "graphs": per,
